@@ -361,6 +361,40 @@ Lemma launch_interrupted : forall db m, running m = true ->
   lstep H dec blen ideal root cb0 db LQueued LQuit = LFailedLaunch.
 Proof. intros db m R. cbn [lstep]. rewrite R. auto. Qed.
 
+(* an error of process (invalid trie node / failed with all peers) ends the loop with
+   that error, and nothing that happens afterwards can turn it into a success *)
+Lemma mstep_keeps_error : forall m ev, m_err m <> CNone ->
+  m_err (mstep H dec blen ideal m ev) = m_err m.
+Proof.
+  intros m ev E.
+  assert (R : running m = false) by (unfold running; destruct (m_err m); [congruence | reflexivity | reflexivity]).
+  destruct ev; cbn [mstep]; rewrite ?R; try reflexivity;
+    unfold finish_req; destruct (active_get (m_active m) p); reflexivity.
+Qed.
+
+Lemma process_error_recorded : forall m f rest np c' succ e,
+  running m = true -> m_finished m = f :: rest ->
+  cprocess H dec blen (m_c m) (f_req f) (f_resp f) np = (c', (succ, e)) ->
+  m_err (mstep H dec blen ideal m (ENext np)) = e.
+Proof. intros m f rest np c' succ e R F C. cbn [mstep]. rewrite R, F, C. reflexivity. Qed.
+
+Lemma launch_process_error : forall db m, m_err m <> CNone ->
+  lstep H dec blen ideal root cb0 db (LRunning m) LGuard =
+    LDone (Some (LFailed (m_err m))) (mstep H dec blen ideal m ECancel) /\
+  forall evs m', fold_left (lstep H dec blen ideal root cb0 db) evs (LRunning m) <> LDone None m'.
+Proof.
+  intros db m E. split.
+  - cbn [lstep]. unfold running. destruct (m_err m); [congruence | reflexivity | reflexivity].
+  - intros evs. revert m E. induction evs as [|e evs IH]; intros m E m'; cbn [fold_left]; [discriminate|].
+    assert (R : running m = false) by (unfold running; destruct (m_err m); [congruence | reflexivity | reflexivity]).
+    assert (FIN : forall x mm, fold_left (lstep H dec blen ideal root cb0 db) evs (LDone (Some x) mm) <> LDone None m').
+    { intros x mm. clear. induction evs as [|e' evs' IH']; cbn [fold_left]; [discriminate|].
+      rewrite launch_done_final. exact IH'. }
+    destruct e as [| |ev| | |]; cbn [lstep]; rewrite ?R; try (apply IH; exact E).
+    + destruct ev; try (apply IH; rewrite mstep_keeps_error; assumption). apply IH; exact E.
+    + destruct (m_err m) eqn:EM; [congruence | apply FIN | apply FIN].
+Qed.
+
 Definition launch_ok (st : lstate) : Prop :=
   match st with
   | LQueued | LFailedLaunch => True
@@ -462,3 +496,12 @@ Proof.
   - vm_compute. reflexivity.
   - vm_compute. reflexivity.
 Qed.
+
+(* the only peer answers the request for the root with an explicitly empty packet:
+   process fails with "failed with all peers", the task ends with that error *)
+Lemma g_launch_error :
+  exists m, lrun wH gdec g_blen g_ideal 11 true []
+              [LHandover; LLoop (EAssign 0 1 [11] [11]); LLoop (EPack 0 []); LLoop (ENext 1); LGuard; LGuard]
+            = LDone (Some (LFailed CAllPeers)) m /\
+            pending (c_sched (m_c m)) = 1 /\ s_db (c_sched (m_c m)) = [].
+Proof. eexists. split; [vm_compute; reflexivity | split; vm_compute; reflexivity]. Qed.
